@@ -503,12 +503,27 @@ def isSelfOrSuper (s : Schema) : Nat → String → String → Bool
       | some e => e.supers.any (fun sup => isSelfOrSuper s f sup p)
       | none => false)
 
+/-- the end of a chain of redeclarations (ordered_attrs.cc `redeclarationTarget`): `SELF\sup.x` where `sup` itself only redeclares
+    `x` as `SELF\sup2.x` means the attribute that redeclaration means -/
+def redeclTarget (s : Schema) : Nat → String → String → String
+  | 0, sup, _ => sup
+  | f + 1, sup, x =>
+    match s.findE sup with
+    | some e =>
+      (match e.attrs.find? (fun b => b.name == x) with
+       | some b => (match b.redecl with
+           | some q => if q == sup then sup else redeclTarget s f q x
+           | none => sup)
+       | none => sup)
+    | none => sup
+
 /-- may the entry created by `creator` be the attribute that own attribute `a` repeats?  An ordinary name: yes.  A redeclaration
     `SELF\sup.x`: only when `creator` is `sup` or a supertype of `sup` (fix C02-8; before it: always) -/
 def creatorOK (s : Schema) (a : Attr) (creator : String) : Bool :=
   match a.redecl with
   | none => true
-  | some sup => !redeclSearchUsesCreator || isSelfOrSuper s (fuelOf s) sup creator
+  | some sup => !redeclSearchUsesCreator ||
+      isSelfOrSuper s (fuelOf s) (if redeclFollowsChain then redeclTarget s (fuelOf s) sup a.name else sup) creator
 
 /-- first entry at index ≥ `cnt` that satisfies `p`, marked -/
 def markFirstP (p : OA → Bool) : List OA → Option (List OA)
@@ -567,10 +582,25 @@ def attrDeclarer (s : Schema) : Nat → String → String → Option String
       if e.attrs.any (fun a => a.name == nm && a.redecl.isNone) then some c
       else e.supers.findSome? (fun sup => attrDeclarer s f sup nm)
 
+/-- `ATTRdeclarer` since fix C02-14: when `c` itself redeclares `nm` as `SELF\q.nm`, the declarer is the one `q`'s `nm` has -/
+def attrDeclarerC (s : Schema) : Nat → String → String → Option String
+  | 0, _, _ => none
+  | f + 1, c, nm =>
+    match s.findE c with
+    | none => none
+    | some e =>
+      match e.attrs.find? (fun a => a.name == nm && (a.redecl.isNone || a.redecl != some c)) with
+      | some a => (match a.redecl with
+          | none => some c
+          | some q => attrDeclarerC s f q nm)
+      | none => e.supers.findSome? (fun sup => attrDeclarerC s f sup nm)
+
 /-- the owner `MakeRedefined( a, nm, owner )` is told for a redeclaration `SELF\sup.nm` (fix C02-9; before it, and when no
     declarer is found: none — the first attribute of that name on the instance) -/
 def redefOwner (s : Schema) (a : Attr) : Option String :=
-  if redefinedSearchUsesDeclarer then a.redecl.bind (fun sup => attrDeclarer s (fuelOf s) sup a.name) else none
+  if redefinedSearchUsesDeclarer then
+    a.redecl.bind (fun sup => (if redeclFollowsChain then attrDeclarerC else attrDeclarer) s (fuelOf s) sup a.name)
+  else none
 
 /-- one iteration of the own-attribute loop of a constructor: `new STEPattribute`, `attributes.push( a )` (and
     `se->attributes.push( a )` when this is a part), `MakeRedefined( a, nm [, owner] )` for a redeclaration (`ro a` = the owner argument).
